@@ -495,6 +495,15 @@ pub fn probe_only() -> bool {
     PROBE_ONLY.with(|p| p.get())
 }
 
+/// Scratch directory for checks that need files; removed by the monitor at exit.
+pub fn scratch_dir() -> std::path::PathBuf {
+    let d: std::path::PathBuf = std::env::var("VERIF_SCRATCH")
+        .map(Into::into)
+        .unwrap_or_else(|_| verif_root().join(".scratch").join(format!("{}", std::process::id())));
+    let _ = std::fs::create_dir_all(&d);
+    d
+}
+
 pub fn verif_root() -> std::path::PathBuf {
     std::env::var("VERIF_ROOT").map(Into::into).unwrap_or_else(|_| "/verif".into())
 }
